@@ -11,7 +11,7 @@ Driver for C07.  One request per line, `k=v` fields separated by single spaces.
 <seq>  : `_` (empty) or items separated by `;`
 <item> : n:<cps> node with string value | i:<int> | d:<num>/<den> | f:<D> double | g:<D> float
          | s:<cps> string | u:<cps> untypedAtomic | b:0/1 | a:<cps> anyURI | q:<ns>/<pre>/<loc>
-         | D:<t> date | T:<t> dateTime | t:<t> time | P:<m>/<s> duration | Y:<m> | S:<s>
+         | D:<y>/<t>/<tz> date | T:… dateTime | t:… time (local year, local seconds since 0001-01-01, offset minutes or _) | P:<m>/<s> duration | Y:<m> | S:<s>
          | x:<octets> hexBinary | y:<octets> base64Binary
 <cps>  : code points separated by `,` (may be empty);  <D> : NaN | INF | -INF | -0 | <num>/<den>
 
@@ -43,6 +43,14 @@ def splitTag (s : String) : String × String :=
   | t :: rest => (t, ":".intercalate rest)
   | [] => ("", "")
 
+/-- `<year>/<local seconds>/<tz minutes or _>` -/
+def parseDT (s : String) : Option DT :=
+  match s.splitOn "/" with
+  | [y, t, z] => do
+    let yy ← int? y; let tt ← int? t
+    if z == "_" then pure ⟨yy, tt, none⟩ else do let zz ← int? z; pure ⟨yy, tt, some zz⟩
+  | _ => none
+
 def parseItem (s : String) : Option Item :=
   let (t, v) := splitTag s
   match t with
@@ -59,9 +67,9 @@ def parseItem (s : String) : Option Item :=
     | [a, b, c] => do
       let x ← parseCps a; let y ← parseCps b; let z ← parseCps c; pure (.atom (.qn x y z))
     | _ => none
-  | "D" => (int? v).map fun n => .atom (.date n)
-  | "T" => (int? v).map fun n => .atom (.dtm n)
-  | "t" => (int? v).map fun n => .atom (.time n)
+  | "D" => (parseDT v).map fun n => .atom (.date n)
+  | "T" => (parseDT v).map fun n => .atom (.dtm n)
+  | "t" => (parseDT v).map fun n => .atom (.time n)
   | "P" => match v.splitOn "/" with
     | [a, b] => do let x ← int? a; let y ← int? b; pure (.atom (.dur x y))
     | _ => none
